@@ -218,6 +218,12 @@ def _registry():
         return bnp.as_encoded_array("".join("ACGT"[("ACGT".index(c) + 1) % 4] for c in mid.to_string()), bnp.DNAEncoding)
     variants = lambda: Variant(["c1", "c1", "c2"], np.array([1, 4, 0]), ["C", "A", "G"], ["T", "G", "A"])
     R.update({
+        # arguments held in ANOTHER, compatible alphabet than the one the callee presents them to (ragged and flat)
+        "as_encoded_array(retarget ragged ACGTN -> ACGT)": (bnp.as_encoded_array, lambda r: (seqs(r, ACGTnEncoding), bnp.DNAEncoding), True),
+        "as_encoded_array(retarget flat ACGTN -> ACGT)": (bnp.as_encoded_array, lambda r: (seqs(r, ACGTnEncoding).ravel(), bnp.DNAEncoding), True),
+        "match_string(pattern in another alphabet)": (bnp.match_string, lambda r: (seqs(r), bnp.as_encoded_array("AC", ACGTnEncoding)), True),
+        "ragged == ragged in another alphabet": (lambda a, b: a == b, lambda r: (lambda x: (bnp.as_encoded_array(x.tolist(), bnp.DNAEncoding), x))(seqs(r, ACGTnEncoding)), True),
+        "count_kmers(ACGTN-encoded without N)": (count_kmers, lambda r: (seqs(r, ACGTnEncoding), 2), True),
         "encode_snps[DNA-encoded 2-D k-mers]": (encode_snps, lambda r: (lambda k: (k, alts(k)))(kmers3(r, True)), True),
         "encode_snps[DNA-encoded ragged k-mers]": (encode_snps, lambda r: (lambda k: (k, alts(k)))(kmers3(r, False)), True),
         "MutationTypeEncoding.from_flanked_snp": (lambda k, a: MutationTypeEncoding(1).from_flanked_snp(k, a), lambda r: (lambda k: (k, alts(k)))(kmers3(r, True)), True),
@@ -334,6 +340,20 @@ def _chunk_events(rng):
         m0 = outcome(modwrite, fresh[1][0]) if fresh[0] == "ok" else fresh
         m1 = outcome(modwrite, chunk)
         events.append({"f": "modified-write:" + name, "before": str(before), "after": str(outcome(written, chunk)), "res1": str(m0), "res2": str(m1), "special": True})
+        # a second table over the same buffer (one column replaced by itself): its fields, parsed twice, are the chunk's fields, and parsing
+        # them leaves the chunk's own fields as they were
+        pc = outcome(make)
+        if pc[0] == "ok":
+            c2 = pc[1][0]
+            f0 = [f.name for f in dataclasses.fields(c2)]
+            own1 = [outcome(lambda nm=nm: digest(getattr(c2, nm)))[1] for nm in f0]
+            rp = outcome(lambda: replace(c2, **{f0[-1]: getattr(c2, f0[-1])}))
+            if rp[0] == "ok":
+                d1 = [outcome(lambda nm=nm: digest(getattr(rp[1], nm)))[1] for nm in f0]
+                rp2 = outcome(lambda: replace(c2, **{f0[0]: getattr(c2, f0[0])}))
+                d2 = [outcome(lambda nm=nm: digest(getattr(rp2[1], nm)))[1] for nm in f0] if rp2[0] == "ok" else d1
+                own2 = [outcome(lambda nm=nm: digest(getattr(c2, nm)))[1] for nm in f0]
+                events.append({"f": "fields-of-derived-tables:" + name, "before": str(own1), "after": str(own2), "res1": str(d1), "res2": str(d2), "special": True})
         # np.concatenate of a chunk with one replaced column and an untouched chunk: the untouched operand still writes its own bytes
         for nm in fields:
             pa, pb = outcome(make), outcome(make)
